@@ -10,6 +10,7 @@ import (
 func init() {
 	vpRegister("vpH_C13_reuse", vpH_C13_reuse)
 	vpRegister("vpH_C13_pool", vpH_C13_pool)
+	vpRegister("vpH_C13_mixed", vpH_C13_mixed)
 }
 
 type vpLookup struct {
@@ -258,4 +259,93 @@ func vpH_C13_readers() {
 		vpAssert(vpStrsEq(collect(r, n), collect(fr, n)), "a reused doc-value reader returns what a fresh one returns")
 	}
 	vpReach("C13 readers end")
+}
+
+// vpFullList digests a postings list through a NEW iterator: count and every posting.
+func vpFullList(pl segment.PostingsList) []uint64 {
+	dig := []uint64{pl.Count()}
+	it, err := pl.Iterator(true, true, true, nil)
+	vpMust(err, "Iterator")
+	for k := 0; k < 8; k++ {
+		p, err := it.Next()
+		vpMust(err, "Next")
+		if p == nil {
+			break
+		}
+		dig = append(dig, p.Number(), uint64(p.Frequency()), uint64(len(p.Locations())))
+	}
+	return dig
+}
+
+// C13: the postings list and the iterator of an earlier lookup are reused
+// INDEPENDENTLY (only the list, only the iterator, both, none) by a second
+// lookup; the objects that were not handed over stay in use: the first list is
+// read again and (unless its list was recycled) the first iterator is continued.  Everything equals what
+// fresh objects return.
+func vpH_C13_mixed() {
+	docs := vpC13Docs()
+	seg := vpBuild(docs, 2)
+	if vpChoice("merged", 2) == 1 {
+		mb, _ := vpMergeBytes([]*Segment{seg}, []*roaring.Bitmap{nil}, 1025)
+		seg = vpLoad(mb)
+	}
+	segs := []*Segment{seg, seg}
+	pick := func(tag string) vpLookup {
+		l := vpLookup{flags: 2, walk: 1}
+		switch vpChoice(tag+"-term", 3) {
+		case 0:
+			l.field, l.term = "a", "x"
+		case 1:
+			l.field, l.term = "b", "x"
+		default:
+			l.field, l.term = "_id", "d1"
+		}
+		l.except = vpChoice(tag+"-except", 2) == 1
+		return l
+	}
+	l1, l2 := pick("first"), pick("second")
+	// fresh reference: lookup 1 (one posting read, then the rest), lookup 2, list 1 again
+	_, fpl1, fit1 := vpDoLookup(segs, map[string]segment.Dictionary{}, l1, nil, nil)
+	wantList1 := vpFullList(fpl1)
+	var wantRest []uint64
+	for k := 0; k < 4; k++ {
+		p, err := fit1.Next()
+		vpMust(err, "Next")
+		if p == nil {
+			break
+		}
+		wantRest = append(wantRest, p.Number(), uint64(p.Frequency()))
+	}
+	want2, _, _ := vpDoLookup(segs, map[string]segment.Dictionary{}, l2, nil, nil)
+
+	dicts := map[string]segment.Dictionary{}
+	_, pl1, it1 := vpDoLookup(segs, dicts, l1, nil, nil)
+	var prePL segment.PostingsList
+	var preIT segment.PostingsIterator
+	giveList, giveIter := vpChoice("reuse-list", 2) == 1, vpChoice("reuse-iterator", 2) == 1
+	if giveList {
+		prePL = pl1
+	}
+	if giveIter {
+		preIT = it1
+	}
+	got2, _, _ := vpDoLookup(segs, dicts, l2, prePL, preIT)
+	vpAssert(vpU64sEq(got2, want2), "second lookup (list / iterator reused independently) returns what fresh objects return")
+	if !giveList {
+		vpAssert(vpU64sEq(vpFullList(pl1), wantList1), "a postings list that was not handed over still returns its own postings")
+	}
+	if !giveIter && !giveList {
+		// (an iterator reads from its list: recycling the list ends the life of its iterators)
+		var rest []uint64
+		for k := 0; k < 4; k++ {
+			p, err := it1.Next()
+			vpMust(err, "Next")
+			if p == nil {
+				break
+			}
+			rest = append(rest, p.Number(), uint64(p.Frequency()))
+		}
+		vpAssert(vpU64sEq(rest, wantRest), "an iterator that was not handed over continues where it was")
+	}
+	vpReach("C13 mixed end")
 }
